@@ -1,0 +1,47 @@
+//go:build verif
+
+package timex
+
+import (
+	"sync/atomic"
+	"time"
+)
+
+// Verification build (tag verif): Now/Since behave exactly like the production
+// versions unless a monitor switches to the virtual clock with VerifFakeClock.
+
+var initTime = time.Now().AddDate(-1, -1, -1)
+
+var (
+	verifFake int32 // 1 = virtual clock active
+	verifNow  int64 // virtual Now() in nanoseconds
+)
+
+// Now returns the relative duration since initTime (or the virtual clock).
+func Now() time.Duration {
+	if atomic.LoadInt32(&verifFake) == 1 {
+		return time.Duration(atomic.LoadInt64(&verifNow))
+	}
+	return time.Since(initTime)
+}
+
+// Since returns the difference between Now and t.
+func Since(t time.Duration) time.Duration {
+	return Now() - t
+}
+
+// VerifFakeClock switches Now/Since to a virtual clock starting at start.
+func VerifFakeClock(start time.Duration) {
+	atomic.StoreInt64(&verifNow, int64(start))
+	atomic.StoreInt32(&verifFake, 1)
+}
+
+// VerifAdvance moves the virtual clock forward by d and returns the new time.
+func VerifAdvance(d time.Duration) time.Duration {
+	return time.Duration(atomic.AddInt64(&verifNow, int64(d)))
+}
+
+// VerifRealClock switches back to the real clock.
+func VerifRealClock() {
+	atomic.StoreInt32(&verifFake, 0)
+}
